@@ -106,19 +106,40 @@ class Case:
             coroutines=rng.random() < 0.7,
             connect_script={}, faults=[])
         self.refuse_p = rng.choice([0, 0.2])
+        # a quarter of the cases run on a message-queue manager (one host of
+        # a cluster): the bookkeeping for local clients must be just as clean
+        self.pubsub = rng.random() < 0.25
         self.r = None
         self.failed = False
         self.nT = 0
 
     def new_runner(self):
-        r = S.Runner(self.cfg)
-        return r
+        if not self.pubsub:
+            return S.Runner(self.cfg)
+        from vlib import pubsub_mem as PM
+
+        class NullChannel(PM.Channel):
+            """Nothing is kept: the published messages are not part of the
+            server's state."""
+
+            def publish(self, raw, publisher=None):
+                return 0
+        chan = NullChannel()
+        dkw = {}
+        if self.kind == 'async':
+            mgr = PM.make_async_manager(chan)
+        else:
+            mgr = PM.make_sync_manager(chan)
+        dkw['client_manager'] = mgr
+        self.ctx.count('pubsub_manager_cases')
+        return S.Runner(self.cfg, drive_kw=dkw)
 
     def witness(self, extra=None):
         w = {'case_index': self.index, 'kind': self.kind,
              'config': {k: self.cfg[k] for k in (
                  'serializer', 'served', 'style', 'async_handlers',
-                 'always_connect', 'coroutines')}}
+                 'always_connect', 'coroutines')},
+             'pubsub_manager': self.pubsub}
         if extra:
             w.update(extra)
         r = self.r
@@ -179,6 +200,8 @@ class Case:
                 elif kindop == 'leave':
                     r.d.api('leave_room', sid, 'r1', namespace=ns)
                 elif kindop == 'emit_cb':
+                    self.late_cb_sids = getattr(self, 'late_cb_sids', set())
+                    self.late_cb_sids.add(sid)
                     r.d.api('emit', 'late', {'x': 1}, to=sid, namespace=ns,
                             callback=lambda *a: None)
                 elif kindop == 'sdisc':
@@ -293,7 +316,7 @@ class Case:
         base_probe = self.probe(self.nT)
         self.forget_harness_refs()
         base_api = self.api_snapshot()
-        base_size, base_types = G.measure(r.sio)
+        base_size, base_types = G.measure(r.sio, extra_skip=(r, r.d))
         # the history under test, dry run on a scratch server to count
         # handler invocations
         scratch = S.Runner(self.cfg)
@@ -358,20 +381,32 @@ class Case:
                     return
                 self.resync_known()
                 base_api = self.api_snapshot()
-                base_size, base_types = G.measure(r.sio)
+                base_size, base_types = G.measure(r.sio, extra_skip=(r, r.d))
                 continue
-            size, types_ = G.measure(r.sio)
+            size, types_ = G.measure(r.sio, extra_skip=(r, r.d))
             ctx.count('graph_size_comparisons')
             if size != base_size:
                 extra['graph_growth'] = G.diff(base_types, types_)
+                hint = self._hint
+                m = r.sio.manager
+                late = getattr(self, 'late_cb_sids', set())
+                del late
+                if self.pubsub and m.callbacks and not m.rooms and \
+                        not m.pending_disconnect and not r.sio.environ:
+                    # (no room left means no client left: every remaining
+                    # callbacks entry belongs to an absent client)
+                    # message-queue manager: the ack id of an emit with a
+                    # callback is registered before it is known whether the
+                    # addressed client exists anywhere in the cluster
+                    hint = 'pubsub-callback-for-departed-client-never-freed'
                 if self.fail('objects reachable from the server grew from '
                              '%d to %d after a client came and went: %r' % (
                                  base_size, size, extra['graph_growth']),
-                             extra, self._hint):
+                             extra, hint):
                     return
                 self.resync_known()
                 base_api = self.api_snapshot()
-                base_size, base_types = G.measure(r.sio)
+                base_size, base_types = G.measure(r.sio, extra_skip=(r, r.d))
                 continue
             ctx.case((self.kind, self.cfg['serializer'], end,
                       'nofault' if fault is None else handler_kind,
